@@ -298,3 +298,48 @@ Example ex_texts :
   /\ parse_text TInt32Array (VTArray [[49]; [45; 50]]) = TOk (VI32A [1; -2])
   /\ parse_scalar TDouble [45; 48; 46; 53] = TOk (VF64 13826050856027422720).
 Proof. repeat split; vm_compute; reflexivity. Qed.
+
+(* ---------- static metadata over VISS (C15 / C20) ---------- *)
+Lemma insert_by_in {A} (key : A -> Z) (x y : A) l : In y (insert_by key x l) <-> y = x \/ In y l.
+Proof.
+  induction l as [|z r IH]; cbn [insert_by].
+  - cbn. intuition.
+  - destruct (key x <=? key z); cbn [In].
+    + intuition.
+    + rewrite IH. intuition.
+Qed.
+
+Lemma sort_by_in {A} (key : A -> Z) (y : A) l : In y (sort_by key l) <-> In y l.
+Proof.
+  unfold sort_by. induction l as [|x r IH]; cbn [fold_right]; [reflexivity|].
+  rewrite insert_by_in, IH. cbn [In]. intuition.
+Qed.
+
+(* what the VISS metadata tree says about a signal is what was registered: the very signals whose path starts
+   with the requested text, each with its registered entry type, data type and allowed list - the same numbers
+   the kuksa.val.v2 and sdv metadata projections are built from *)
+Theorem viss_metadata_sound st path line :
+  In line (tl (viss_metadata st path)) ->
+  exists id e, In (id, e) (entries (st_db st)) /\ bytes_prefix path (m_path (e_meta e)) = true /\
+               line = [205; id; kuksa_entry_type (m_etype (e_meta e)); kuksa_data_type (m_dtype (e_meta e))]
+                      ++ enc_opt_val (m_allowed (e_meta e)).
+Proof.
+  unfold viss_metadata. cbn [tl]. intros H. apply in_map_iff in H. destruct H as ([id e] & Hl & Hin).
+  apply sort_by_in in Hin. apply filter_In in Hin. destruct Hin as (Hin & Hp). cbn [snd] in Hp.
+  exists id, e. split; [exact Hin|]. split; [exact Hp|]. symmetry. exact Hl.
+Qed.
+
+Theorem viss_metadata_complete st path id e :
+  In (id, e) (entries (st_db st)) -> bytes_prefix path (m_path (e_meta e)) = true ->
+  In ([205; id; kuksa_entry_type (m_etype (e_meta e)); kuksa_data_type (m_dtype (e_meta e))]
+      ++ enc_opt_val (m_allowed (e_meta e))) (tl (viss_metadata st path)).
+Proof.
+  intros Hin Hp. unfold viss_metadata. cbn [tl]. apply in_map_iff. exists (id, e). split; [reflexivity|].
+  apply sort_by_in. apply filter_In. split; [exact Hin|exact Hp].
+Qed.
+
+(* the empty path selects every signal; a path selects the signal of that name *)
+Lemma bytes_prefix_nil s : bytes_prefix [] s = true.
+Proof. reflexivity. Qed.
+Lemma bytes_prefix_refl s : bytes_prefix s s = true.
+Proof. induction s as [|c r IH]; cbn; [reflexivity|]. rewrite Z.eqb_refl. exact IH. Qed.
